@@ -268,6 +268,7 @@ def run_job(job: dict) -> dict:
 
 def main() -> None:
     install_blocker()
+    sys.modules.setdefault("harness.w_obs", sys.modules["__main__"])  # extras register into THIS module's table
     # optional extra observers live in sibling modules that register themselves
     for extra in os.environ.get("VERIF_OBS_EXTRA", "").split(","):
         if extra:
